@@ -532,7 +532,9 @@ fn random_value(rng: &mut Rng, maxlen: u64) -> String {
 
 fn random_doc(rng: &mut Rng) -> Doc {
     let nl = rng.below(5) as usize;
-    let keys = ["rt", "if", "sz", "title", "ct", "obs", "k\u{e9}", "x-y", "a1"];
+    // the last three keys are legal for the writer (its assertion forbids white space and '=' only) but contain
+    // separators: such documents are outside C16 (`doc_wf`), not outside C18's "every document"
+    let keys = ["rt", "if", "sz", "title", "ct", "obs", "k\u{e9}", "x-y", "a1", "a;b", "c,d", "q\"x"];
     (0..nl)
         .map(|_| {
             let t: String = {
